@@ -46,9 +46,58 @@ pub struct SrvRef {
     accepted_app: Option<String>,
     publishing: Vec<String>,   // keys with an accepted publish request not yet finished
     playing: Vec<String>,
+    // stream life cycle, read independently from the bytes in both directions
+    inp: Option<RefDecoder>,         // reader of the peer's bytes (None: stopped judging)
+    outp: Option<RefDecoder>,        // reader of the session's own packets
+    out_seen: usize,
+    started: bool,
+    created: std::collections::HashSet<u32>,
+    deleted: std::collections::HashSet<u32>,
+    req_stream: std::collections::HashMap<u32, u32>,   // request id -> message stream it arrived on
 }
 
 impl SrvRef {
+    fn start(&mut self) { if !self.started { self.started = true; self.inp = Some(RefDecoder::new(false)); self.outp = Some(RefDecoder::new(false)); } }
+    /// stream ids the session announced in createStream results
+    fn sync_outputs(&mut self, t: &Track) {
+        self.start();
+        while self.out_seen < t.packets.len() {
+            let b = &t.packets[self.out_seen].0; self.out_seen += 1;
+            let rd = match self.outp.as_mut() { Some(r) => r, None => return };
+            match rd.decode_all(b) {
+                Err(_) => { self.outp = None; return; }
+                Ok(ms) => for m in ms { if m.typ == 20 { if let Ok(vs) = refcodec::decode(&m.data) {
+                    if let (Some(crate::amftext::V::Str(n)), Some(crate::amftext::V::Number(b))) = (vs.get(0), vs.get(3)) { if n == b"_result" { self.created.insert(f64::from_bits(*b) as u32); } } } } }
+            }
+        }
+    }
+    /// one `srv.in` op: `data` is everything the peer sent in it, `failed` = a call returned Err,
+    /// `new_reqs` = publish / play request ids surfaced, `media` = audio / video / metadata events raised
+    fn on_op(&mut self, t: &Track, data: &[u8], failed: bool, new_reqs: &[u32], media: usize) -> Option<String> {
+        self.start();
+        let connected_before = self.accepted_app.is_some();
+        let created_before = self.created.clone();
+        self.sync_outputs(t);
+        if failed { self.inp = None; }
+        let rd = self.inp.as_mut()?;
+        let ms = match rd.decode_all(data) { Ok(m) => m, Err(_) => { self.inp = None; return None; } };
+        let mut verdict = None;
+        if ms.len() == 1 {
+            let m = &ms[0];
+            if (m.typ == 8 || m.typ == 9) && media > 0 && self.deleted.contains(&m.msid) { verdict = Some(format!("media-event-raised-for-a-message-on-deleted-stream-{}", m.msid)); }
+            if m.typ == 20 { for r in new_reqs { self.req_stream.insert(*r, m.msid); } }
+        }
+        for m in &ms {
+            if m.typ != 20 { continue; }
+            if let Ok(vs) = refcodec::decode(&m.data) {
+                if let (Some(crate::amftext::V::Str(n)), Some(crate::amftext::V::Number(b))) = (vs.get(0), vs.get(3)) {
+                    let id = f64::from_bits(*b) as u32;
+                    if n == b"deleteStream" && connected_before && created_before.contains(&id) { self.deleted.insert(id); }
+                }
+            }
+        }
+        verdict
+    }
     fn on_events(&mut self, rs: &[ServerSessionResult]) -> Option<String> {
         for r in rs {
             if let ServerSessionResult::RaisedEvent(e) = r {
@@ -66,6 +115,7 @@ impl SrvRef {
                         if Some(app_name) != self.accepted_app.as_ref() { return Some(format!("play-request-tagged-with-app-{:?}-accepted-was-{:?}", app_name, self.accepted_app)); }
                         if !self.seen_ids.insert(*request_id) { return Some(format!("request-id-{}-issued-twice", request_id)); }
                         self.pending.insert(*request_id, (2, app_name.clone(), stream_key.clone()));
+                        if let E::PlayStreamRequested { stream_id, .. } = e { self.req_stream.insert(*request_id, *stream_id); }
                     }
                     E::AudioDataReceived { app_name, stream_key, .. } | E::VideoDataReceived { app_name, stream_key, .. } | E::StreamMetadataChanged { app_name, stream_key, .. } => {
                         if Some(app_name) != self.accepted_app.as_ref() { return Some(format!("media-event-tagged-with-app-{:?}-accepted-was-{:?}", app_name, self.accepted_app)); }
@@ -91,6 +141,7 @@ impl SrvRef {
             None => if ok || err != "err:requestid" { Some(format!("id-{}-is-not-outstanding-but-the-call-returned-{}", id, if ok { "Ok" } else { err })) } else { None },
             Some((kind, app, key)) => {
                 if !ok && !(accept && kind != 0 && err == "err:inactive") { return Some(format!("outstanding-id-{}-refused-with-{}", id, err)); }
+                if accept && ok && kind != 0 { if let Some(sid) = self.req_stream.get(&id) { if self.deleted.contains(sid) { return Some(format!("request-{}-accepted-on-stream-{}-which-was-deleted", id, sid)); } } }
                 if accept && ok { match kind { 0 => self.accepted_app = Some(app), 1 => self.publishing.push(key), _ => self.playing.push(key) } }
                 None
             }
@@ -104,17 +155,28 @@ pub struct CliRef {
     next_tid: u32,
     outstanding: std::collections::HashMap<u32, u8>,   // tid -> 0 connect | 1 createStream
     peer: Option<RefDecoder>,
+    active: Option<u32>,          // stream of the running play / publish (None after a stop that emitted deleteStream)
+    ever_active: bool,
 }
 
 impl CliRef {
-    fn new() -> Self { CliRef { next_tid: 1, outstanding: Default::default(), peer: Some(RefDecoder::new(false)) } }
+    fn new() -> Self { CliRef { next_tid: 1, outstanding: Default::default(), peer: Some(RefDecoder::new(false)), active: None, ever_active: false } }
+    fn on_stop(&mut self, emitted: bool) { if emitted { self.active = None; } }
     fn on_request(&mut self, ok: bool, kind: u8) { if ok { self.outstanding.insert(self.next_tid, kind); self.next_tid += 1; } }
     /// one input call that carries exactly one complete command message `_result` / `_error`
     fn on_input(&mut self, data: &[u8], out: &str) -> Option<String> {
         let rd = self.peer.as_mut()?;
         let ms = match rd.decode_all(data) { Ok(m) => m, Err(_) => { self.peer = None; return None; } };   // desynchronised: stop judging
         let cmds: Vec<&RMsg> = ms.iter().filter(|m| m.typ == 20).collect();
+        // media gate: one media / data message in the call, and an event for it
+        if ms.len() == 1 && (ms[0].typ == 8 || ms[0].typ == 9 || ms[0].typ == 18) && !out.contains("err:") {
+            let raised = out.split(' ').any(|t| t.starts_with("ev:audio:") || t.starts_with("ev:video:") || t.starts_with("ev:meta:"));
+            if raised && self.active != Some(ms[0].msid) { return Some(format!("media-event-raised-for-stream-{}-while-the-active-stream-is-{:?}", ms[0].msid, self.active)); }
+        }
         if ms.len() != 1 || cmds.len() != 1 { 
+            // several messages in one call: the active stream may change in it; stop judging the media gate
+            for m in &cmds { if let Ok(vs) = refcodec::decode(&m.data) { if let (Some(crate::amftext::V::Str(n)), Some(crate::amftext::V::Number(t)), Some(crate::amftext::V::Number(id))) = (vs.get(0), vs.get(1), vs.get(3)) {
+                if n == b"_result" && self.outstanding.get(&(f64::from_bits(*t) as u32)) == Some(&1) && !out.contains("err:") { self.active = Some(f64::from_bits(*id) as u32); } } } }
             // still keep the bookkeeping right for every answer in the call
             for m in cmds { if let Ok(vs) = refcodec::decode(&m.data) { if let (Some(crate::amftext::V::Str(n)), Some(crate::amftext::V::Number(t))) = (vs.get(0), vs.get(1)) { if n == b"_result" || n == b"_error" { self.outstanding.remove(&(f64::from_bits(*t) as u32)); } } } }
             return None;
@@ -123,7 +185,9 @@ impl CliRef {
         let (name, tid) = match (vs.get(0), vs.get(1)) { (Some(crate::amftext::V::Str(n)), Some(crate::amftext::V::Number(t))) => (n.clone(), f64::from_bits(*t) as u32), _ => return None };
         if name != b"_result" && name != b"_error" { return None; }
         if vs.len() < 3 { return None; }
-        let known = self.outstanding.remove(&tid).is_some();
+        let kind = self.outstanding.remove(&tid);
+        let known = kind.is_some();
+        if name == b"_result" && kind == Some(1) && !out.contains("err:") { if let Some(crate::amftext::V::Number(id)) = vs.get(3) { self.active = Some(f64::from_bits(*id) as u32); self.ever_active = true; } }
         let reported_unknown = out.contains("ev:unktxn:");
         if !known && !reported_unknown && !out.contains("err:") { return Some(format!("answer-to-transaction-{}-which-is-not-outstanding-was-not-reported-as-unknown", tid)); }
         // acknowledgements are a function of the call size, not of the message
@@ -160,12 +224,18 @@ fn decodable(t: &Track, seed: u64) -> String {
     let tag = if t.input_failed { "after-input-error " } else { "" };
     let mut pk = refcodec::Pick(seed);
     let mut bytes = vec![];
+    let mut all_bytes = vec![];
     let mut kept = 0;
-    for (b, d, req) in &t.packets {
+    let mut kept_idx = vec![];
+    for (i, (b, d, req)) in t.packets.iter().enumerate() {
         if *d && !*req { return format!("! FAIL {}droppable-flag-on-a-packet-the-application-did-not-mark", tag); }
+        all_bytes.extend_from_slice(b);
         if *d && pk.next() % 2 == 0 { continue; }
-        bytes.extend_from_slice(b); kept += 1;
+        bytes.extend_from_slice(b); kept += 1; kept_idx.push(i);
     }
+    // what every packet means when nothing is dropped (one message per packet)
+    let full: Option<Vec<RMsg>> = { let mut rd = RefDecoder::new(true); rd.sequential_only = true;
+        match rd.decode_all(&all_bytes) { Ok(ms) if ms.len() == t.packets.len() => Some(ms), _ => None } };
     let mut rd = RefDecoder::new(true);
     rd.sequential_only = true;
     match rd.decode_all(&bytes) {
@@ -179,6 +249,14 @@ fn decodable(t: &Track, seed: u64) -> String {
                 if !ok { return format!("! FAIL {}ill-formed-message-type-{}", tag, m.typ); }
             }
             if ms.len() != kept { return format!("! FAIL {}{}-packets-decoded-into-{}-messages", tag, kept, ms.len()); }
+            if let Some(f) = &full {
+                for (j, i) in kept_idx.iter().enumerate() {
+                    let (a, b) = (&ms[j], &f[*i]);
+                    if a.ts != b.ts || a.typ != b.typ || a.msid != b.msid || a.data != b.data {
+                        return format!("! FAIL {}packet-{}-reads-as-ts={}.typ={}.msid={}.len={}-after-drops-but-as-ts={}.typ={}.msid={}.len={}-when-nothing-is-dropped", tag, i, a.ts, a.typ, a.msid, a.data.len(), b.ts, b.typ, b.msid, b.data.len());
+                    }
+                }
+            }
             format!("! ok {} packets", kept)
         }
     }
@@ -410,14 +488,22 @@ fn op_inner(st: &mut SessSt, toks: &[&str]) -> Option<String> {
             s.verif_set_uptime_ms(Some(now));
             let mut outs = vec![];
             st.srv_track.saw_input(&data);
+            let (mut failed, mut new_reqs, mut media) = (false, vec![], 0usize);
             for c in split_calls(&sizes, &data) {
-                match s.handle_input(c) { Err(e) => { st.srv_track.input_failed = true; outs.push(srv_err(&e)); break; } Ok(rs) => { record_srv(&mut st.srv_track, &rs); let mut o = show_srv_results(&mut st.srv_out, &rs); if let Some(v) = st.srv_ref.on_events(&rs) { o.push_str(" ORACLE-FAIL:"); o.push_str(&v.replace(' ', "_")); } outs.push(o) } }
+                match s.handle_input(c) { Err(e) => { st.srv_track.input_failed = true; failed = true; outs.push(srv_err(&e)); break; } Ok(rs) => {
+                    for r in &rs { if let ServerSessionResult::RaisedEvent(e) = r { match e {
+                        ServerSessionEvent::PublishStreamRequested { request_id, .. } | ServerSessionEvent::PlayStreamRequested { request_id, .. } => new_reqs.push(*request_id),
+                        ServerSessionEvent::AudioDataReceived { .. } | ServerSessionEvent::VideoDataReceived { .. } => media += 1, _ => {} } } }
+                    record_srv(&mut st.srv_track, &rs); let mut o = show_srv_results(&mut st.srv_out, &rs); if let Some(v) = st.srv_ref.on_events(&rs) { o.push_str(" ORACLE-FAIL:"); o.push_str(&v.replace(' ', "_")); } outs.push(o) } }
             }
-            outs.join(" | ")
+            let mut joined = outs.join(" | ");
+            if let Some(v) = st.srv_ref.on_op(&st.srv_track, &data, failed, &new_reqs, media) { joined.push_str(" ORACLE-FAIL:"); joined.push_str(&v.replace(' ', "_")); }
+            joined
         }
         ["srv.accept", now, id] => {
             let s = st.srv.as_mut()?; s.verif_set_uptime_ms(Some(now.parse().ok()?));
             let idv: u32 = id.parse().ok()?;
+            st.srv_ref.sync_outputs(&st.srv_track);
             match s.accept_request(idv) {
                 Err(e) => { let k = srv_err(&e); match st.srv_ref.on_answer(idv, true, false, &k) { Some(v) => format!("{} ORACLE-FAIL:{}", k, v.replace(' ', "_")), None => k } }
                 Ok(rs) => { record_srv(&mut st.srv_track, &rs); let o = show_srv_results(&mut st.srv_out, &rs); match st.srv_ref.on_answer(idv, true, true, "") { Some(v) => format!("{} ORACLE-FAIL:{}", o, v.replace(' ', "_")), None => o } }
@@ -496,7 +582,7 @@ fn op_inner(st: &mut SessSt, toks: &[&str]) -> Option<String> {
         ["cli.stop", now, what] => {
             let s = st.cli.as_mut()?; s.verif_set_uptime_ms(Some(now.parse().ok()?));
             let r = if *what == "play" { s.stop_playback() } else { s.stop_publishing() };
-            match r { Err(e) => cli_err(&e), Ok(rs) => { record_cli(&mut st.cli_track, &rs, false); show_cli_results(&mut st.cli_out, &rs) } }
+            match r { Err(e) => cli_err(&e), Ok(rs) => { st.cli_ref.on_stop(!rs.is_empty()); record_cli(&mut st.cli_track, &rs, false); show_cli_results(&mut st.cli_out, &rs) } }
         }
         ["cli.ping", now] => {
             let s = st.cli.as_mut()?; s.verif_set_uptime_ms(Some(now.parse().ok()?));
